@@ -144,9 +144,52 @@ SCHEDULERS = ('create_task', 'wait_for', 'gather', 'ensure_future',
               'start_background_task', 'wait', 'partial', 'partialmethod')
 
 
+import builtins
+
+
+def shape(text, keep):
+    """statement text with every local / parameter name replaced by a
+    positional placeholder (first occurrence order): accepted-drift entries
+    survive a rename of a local on either side."""
+    if text is None:
+        return None
+    try:
+        tree = ast.parse(text)
+    except SyntaxError:
+        return text
+    order = {}
+
+    class R(ast.NodeTransformer):
+        def visit_Name(self, n):
+            if n.id in keep or n.id in ('self', 'cls'):
+                return n
+            order.setdefault(n.id, '_%d' % (len(order) + 1))
+            return ast.Name(id=order[n.id], ctx=n.ctx)
+
+        def visit_arg(self, n):
+            if n.arg not in ('self', 'cls'):
+                order.setdefault(n.arg, '_%d' % (len(order) + 1))
+                n.arg = order[n.arg]
+            return n
+    return ast.unparse(R().visit(tree))
+
+
+def keep_names(*modules):
+    keep = set(dir(builtins)) | {'WAIT', 'JOIN'}
+    for mod in modules:
+        keep |= set(mod.imports) | set(mod.globals) | set(mod.classes) | \
+            set(mod.functions)
+    return keep
+
+
 def r1_r2_pair(ctx, a, b):
     m = ctx.model
     ca, cb = m.cls(a), m.cls(b)
+    keep = keep_names(ca.module, cb.module) | {
+        'asyncio', 'redis', 'Event', 'time', 'InstrumentedServer', 'Socket',
+        'timezone', 'datetime'}
+    accepted = {(k[0], k[1], shape(k[2], keep), shape(k[3], keep)): v
+                for k, v in ACCEPTED.items() if k[0] == a}
     one = ONE_SIDED.get((a, b), {})
     names_a = set(ca.methods)
     names_b = {k for k in cb.methods}
@@ -182,9 +225,9 @@ def r1_r2_pair(ctx, a, b):
                    where(fa), rid='C14.R2')
             continue
         for c, x, y in diffs:
-            key = (a, name, x, y)
-            if key in ACCEPTED:
-                ctx.ok(construct, 'accepted drift: ' + ACCEPTED[key],
+            key = (a, name, shape(x, keep), shape(y, keep))
+            if key in accepted:
+                ctx.ok(construct, 'accepted drift: ' + accepted[key],
                        where(fa), rid='C14.R2')
                 continue
             ctx.bad(construct, 'TWIN-DRIFT %s' % (x or y)[:60],
